@@ -435,9 +435,10 @@ fn matrix(b: &Bounds) -> Vec<Case> {
             }
         }
     } else {
-        // quick tier: the shortest of the real-time scenarios only (one prune timeout + a little; they start first and
-        // run beside everything else)
+        // quick tier: the two idle scenarios (one prune timeout + a little: the server's forwarder is gone; two prune
+        // timeouts + a little: the client's map entry is gone as well); they start first and run beside everything else
         for kind in UKind::ALL {
+            v.push(Case::Udp(UdpCase { kind, size: udp::SLOW_LEN, topo: Topo::Idle }));
             v.push(Case::Udp(UdpCase { kind, size: udp::SLOW_LEN, topo: Topo::IdleGap }));
         }
     }
@@ -1303,7 +1304,7 @@ pub fn run(args: &Args) -> Report {
     rep.bounds.insert("udp_topologies".into(), json!(Topo::ALL.iter().map(|e| e.name()).collect::<Vec<_>>()));
     rep.bounds.insert("udp_payload_lengths".into(), json!(b.udp_lens));
     rep.bounds.insert("udp_exchanges_per_leg".into(), json!(udp::EXCHANGES));
-    rep.bounds.insert("udp_real_time_scenarios".into(), json!(if b.slow_udp { Topo::SLOW.iter().map(|t| t.name()).collect::<Vec<_>>() } else { vec![Topo::IdleGap.name()] }));
+    rep.bounds.insert("udp_real_time_scenarios".into(), json!(if b.slow_udp { Topo::SLOW.iter().map(|t| t.name()).collect::<Vec<_>>() } else { vec![Topo::Idle.name(), Topo::IdleGap.name()] }));
     rep.bounds.insert("udp_prune_timeout_s".into(), json!(udp::prune_timeout().as_secs()));
     rep.bounds.insert("tcp_cases".into(), json!(n_tcp));
     rep.bounds.insert("udp_cases".into(), json!(n_udp));
